@@ -666,7 +666,9 @@ func c15Openers() []c15OpenerSpec {
 		{"// //", func(b string) (string, string, bool) { return "// //" + b, "nested-line", true }},
 		{"/*…*/", func(b string) (string, string, bool) { return "/*" + b + "*/", "block", blockOK(b) }},
 		{"/*//…*/", func(b string) (string, string, bool) { return "/*//" + b + "*/", "block-with-line", blockOK(b) }},
-		{"/*⏎//…⏎*/", func(b string) (string, string, bool) { return "/*\n//" + b + "\n*/", "multiline-block-with-line", blockOK(b) }},
+		{"/*⏎//…⏎*/", func(b string) (string, string, bool) {
+			return "/*\n//" + b + "\n*/", "multiline-block-with-line", blockOK(b)
+		}},
 		{"/*⏎…⏎*/", func(b string) (string, string, bool) { return "/*\n" + b + "\n*/", "multiline-block", blockOK(b) }},
 	}
 }
